@@ -50,6 +50,14 @@ def execute(scn, keep_log=False, hook=None):
     scn = copy.deepcopy(scn)
     net = Dm14Net(scn, keep_log=keep_log)
     sim, bus = net.sim, net.bus
+    states = set()
+
+    def sample_states():
+        st_ = net.states()
+        st_['server_sa'] = st_['server_sa'] is not None
+        states.add(repr(sorted(st_.items())))
+        sim.after(2_000_000, sample_states, 'poll')
+    sim.after(2_000_000, sample_states, 'poll')
     viol = []
     stats = {k: 0 for k in REQUIRED_PROBES}
     t0 = sim.now
@@ -125,7 +133,7 @@ def execute(scn, keep_log=False, hook=None):
             viol.append({'clause': 'not-idle', 'rank': 3, 'msg': 'after the transactions: ' + ', '.join(p)})
         viol += common.idle_violations(net.w)
     done = sum(1 for r in net.client_results if r['exc'] is None)
-    res = {'violations': viol[:4], 'stats': dict(stats, frames=len(bus.frames)), 'nontrivial': done > 0, 'digest': sim.digest(), 'sim_s': (sim.now - t0) / 1e9,
+    res = {'violations': viol[:4], 'stats': dict(stats, frames=len(bus.frames)), 'nontrivial': done > 0, 'digest': sim.digest(), 'sim_s': (sim.now - t0) / 1e9, 'states': states,
            'summary': 'key=%s ops=%s' % (scn.get('server_key'), [(o['op'], o.get('count', len(o.get('values', []))), o['size']) for o in ops])}
     if keep_log:
         res['log'] = sim.logbuf
